@@ -7,6 +7,7 @@ MODS = ("simfile.timing", "simfile.notes")
 FUNCTIONS = ["NoteData.from_notes (push_row, push_measure, groupby player/measure/row, LCM of denominators)", "NoteData.__iter__", "NoteData._iter_measure",
              "NoteData._extract_keysound_indices", "NoteData._get_columns", "Note.__str__"]
 ASSUMPTIONS = [
+    "floats built from pinned (concrete) values are computed in IEEE doubles (symx.FLOAT_FAITHFUL); the repository's own from_notes uses no floats",
     "beats are numerator/denominator with a symbolic integer numerator and a denominator chosen per note from a concrete set; "
     "range() bounds and row indices force the solver to pin every position, so along a path the produced text is concrete "
     "(the solver prunes unsorted/duplicate inputs and decides the row/denominator arithmetic)",
@@ -19,6 +20,7 @@ KINDS = ["TAP", "HOLD_HEAD", "TAIL", "MINE"]
 
 def _setup():
     from vlib import symx
+    symx.FLOAT_FAITHFUL = True   # every position is pinned along a path here, so concrete floats can be IEEE-faithful
     return symx, symx.load_shimmed(MODS)
 
 
@@ -155,12 +157,12 @@ def ob_empty(ncols, budget_s=30):
 def obligations(tier):
     obs = []
     if tier == "quick":
-        singles = [1, 2, 3, 4, 6, 8, 12, 16, 48]
-        pairs = [(1, 1), (2, 3), (4, 6), (3, 4)]
+        singles = [1, 2, 3, 4, 6, 7, 8, 11, 12, 13, 16, 48]
+        pairs = [(1, 1), (2, 3), (4, 6), (3, 4), (3, 7)]
         b = 200
     else:
-        singles = [1, 2, 3, 4, 5, 6, 7, 8, 12, 16, 48, 64, 192]
-        pairs = [(1, 1), (2, 3), (4, 6), (3, 4), (8, 12), (5, 7), (16, 48), (2, 2), (4, 4)]
+        singles = [1, 2, 3, 4, 5, 6, 7, 8, 9, 11, 12, 13, 16, 48, 64, 192]
+        pairs = [(1, 1), (2, 3), (4, 6), (3, 4), (8, 12), (5, 7), (3, 7), (5, 9), (16, 48), (2, 2), (4, 4)]
         b = 3000
     for d in singles:
         obs.append(dict(name=f"roundtrip 1 note /{d}", func="ob_roundtrip", args=((d,), 2, 1, 8, True), budget_s=b, bounds=f"numerator 0..{8*d-1} over {d}, 2 columns, keysound symbolic"))
@@ -229,7 +231,7 @@ def replay(data):
 def main(tier):
     from vlib import core
     chk = core.Check(PROP, tier, "harness." + PROP, FUNCTIONS,
-                     bounds={"quick": "1 note over 9 denominators (beats in [0,8)), 2 notes over 4 denominator pairs (beats in [0,4)), players 0..2, far measure <= 50, empty stream",
+                     bounds={"quick": "1 note over 12 denominators incl. 7, 11, 13 (beats in [0,8)), 2 notes over 5 denominator pairs (beats in [0,4)), players 0..2, far measure <= 50, empty stream",
                              "thorough": "1 note over 13 denominators, 2 notes over 9 pairs (beats in [0,8)), 3 notes over 3 triples, far measure, empty stream"}[tier],
                      assumptions=ASSUMPTIONS, outside=OUTSIDE)
     chk.add_results(core.run_obligations("harness." + PROP, obligations(tier)))
